@@ -38,6 +38,9 @@ pub enum Prog {
     BigCommit(u16),
     /// one small commit x := "B", y := "B" on task 0
     CommitXY,
+    /// read task 0, then commit "counter := the value just read" (an update that, as far as this
+    /// handle knows, changes nothing) together with a change of another property
+    WriteBackRead,
 }
 
 #[derive(Clone, Debug, PartialEq, serde::Serialize, serde::Deserialize)]
@@ -208,6 +211,17 @@ async fn run_prog(dir: PathBuf, prog: Prog, gate: GateH) -> Vec<Ev> {
                 let mut o = vec![];
                 td.update("x", Some("B".into()), &mut o);
                 td.update("y", Some("B".into()), &mut o);
+                commit!(o);
+            }
+            Ok(None) => log.push(Ev::Failed("task 0 missing".into())),
+            Err(e) => log.push(Ev::Failed(format!("read: {e:#}"))),
+        },
+        Prog::WriteBackRead => match r.get_task_data(t(0)).await {
+            Ok(Some(mut td)) => {
+                let cur = td.get("counter").map(|c| c.to_string());
+                let mut o = vec![];
+                td.update("counter", cur, &mut o);
+                td.update("touched", Some("yes".into()), &mut o);
                 commit!(o);
             }
             Ok(None) => log.push(Ev::Failed("task 0 missing".into())),
@@ -430,7 +444,7 @@ impl Scenario for Sc17 {
         }
         let order: Vec<String> = stored.iter().map(|o| format!("{:?}", o.get_uuid().map(|u| u.as_u128() & 0xff))).collect();
         Ok(Outcome {
-            outcome_hash: crate::util::h64(&(order, format!("{:?}", obs.ws), failed_undos)),
+            outcome_hash: crate::util::h64(&(order, format!("{:?}", obs.ws), failed_undos, tasks_str(&obs.tasks))),
             nontrivial: committed.len() >= 2,
         })
     }
@@ -451,6 +465,9 @@ fn scenarios(tier: Tier) -> Vec<Sc17> {
         Sc17::new(vec![Sync, CommitNew(1)]),
         Sc17::new(vec![Sync, CommitThenUndo(1), Rebuild(false)]),
     ];
+    // a handle writes back a value it read before another handle changed it
+    v.push(Sc17::new(vec![WriteBackRead, ReadModifyWrite]));
+    v.push(Sc17::new(vec![WriteBackRead, WriteBackRead, ReadModifyWrite]));
     // one very large commit (thousands of operations) racing a small one and a reader: still one
     // transaction, whatever its size
     let big = if tier == Tier::Quick { 1200 } else { 20000 };
@@ -475,7 +492,7 @@ fn scenarios(tier: Tier) -> Vec<Sc17> {
 pub fn run(opts: &Opts) -> i32 {
     let rep = Report::new("C17", "model_checking", opts);
     rep.set("exhaustive", true);
-    rep.set("rule", "2-6 real SqliteStorage handles (each with its own actor thread; in some scenarios each in a child process of its own, driven over a pipe) on one database directory run programs {commit a new pending task, read-modify-write, re-open a completed task, commit + undo, rebuild the working set, read, two commits, a whole Replica::sync, one commit of 1200 (thorough 20000) operations racing a small commit or a reader}; every StorageTxn call of every handle is a scheduling point; a handle may start a transaction only when a harness probe connection (busy_timeout 0, BEGIN IMMEDIATE) finds the write lock free, so the code's real locking decides which interleavings exist; all interleavings are executed; afterwards a fresh handle audits: every successful commit present contiguously and in order, operation count, replay of stored operations = stored tasks, working set without duplicates or lost entries; non-trivial = executions with >= 2 successful commits");
+    rep.set("rule", "2-6 real SqliteStorage handles (each with its own actor thread; in some scenarios each in a child process of its own, driven over a pipe) on one database directory run programs {commit a new pending task, read-modify-write, re-open a completed task, commit + undo, rebuild the working set, read, two commits, a whole Replica::sync, one commit of 1200 (thorough 20000) operations racing a small commit or a reader, writing back a value read earlier}; every StorageTxn call of every handle is a scheduling point; a handle may start a transaction only when a harness probe connection (busy_timeout 0, BEGIN IMMEDIATE) finds the write lock free, so the code's real locking decides which interleavings exist; all interleavings are executed; afterwards a fresh handle audits: every successful commit present contiguously and in order, operation count, replay of stored operations = stored tasks, working set without duplicates or lost entries; non-trivial = executions with >= 2 successful commits");
     rep.assume("OS-thread preemption inside the actor thread and inside SQLite is not enumerated: only the order in which handles obtain the write lock, and the position of their individual storage calls relative to other handles' transactions");
     let deadline = std::time::Instant::now() + std::time::Duration::from_secs_f64(opts.budget_s);
     let scs = scenarios(opts.tier);
